@@ -55,7 +55,7 @@ FINDINGS = {
 def spec_violated(rep):
     ops, impl = rep["ops"], rep["impl"]
     want, how = {}, {}
-    deleted, status = set(), {}
+    deleted, status, exp = set(), {}, {}
     has_pexp = any(o.startswith("spawn") and " pexp " in o for o in ops)
     for op, line in zip(ops[1:], impl[1:]):
         f = op.split()
@@ -70,6 +70,7 @@ def spec_violated(rep):
             return "request hangs (lock-order inversion) at `%s`" % op
         if f[0] == "seed":
             status[f[1]] = f[2]
+            exp[f[1]] = int(f[3])
             deleted.discard(f[1])
         if f[0] == "patch" and line == "PATCHED":
             status[f[1]] = f[2]
@@ -82,10 +83,15 @@ def spec_violated(rep):
             if f[4] != "-":
                 want[f[1]] = f[4]
         m = re.search(r"keys=\[([^\]]*)\]", line)
-        if m and f[0] in ("go", "shiftm", "shiftmm", "shiftexp", "spawn"):
+        if m and f[0] in ("go", "shiftm", "shiftmm", "shiftw", "shiftexp", "spawn"):
             got = [x.split(":") for x in m.group(1).split(",") if x]
-            w = f[2] if f[0] == "shiftm" else (f[3] if f[0] == "shiftmm" else (want.get(f[1]) if f[0] == "go" else None))
-            n = int(f[1]) if f[0] in ("shiftm", "shiftexp") else (min(int(f[1]), int(f[2])) if f[0] == "shiftmm" else how.get(f[1], 10 ** 9))
+            w = f[2] if f[0] == "shiftm" else (f[3] if f[0] == "shiftmm" else (f[4] if f[0] == "shiftw" else (want.get(f[1]) if f[0] == "go" else None)))
+            n = int(f[1]) if f[0] in ("shiftm", "shiftexp", "shiftw") else (min(int(f[1]), int(f[2])) if f[0] == "shiftmm" else how.get(f[1], 10 ** 9))
+            if f[0] == "shiftw" and not has_pexp:
+                # the window is half-open: FromTime <= expiration time < ToTime
+                for k, _ in got:
+                    if k in exp and not (int(f[2]) <= exp[k] < int(f[3])):
+                        return "`%s` returned %s, whose expiration time base%+ds lies outside the window [%s, %s)" % (op, k, exp[k], f[2], f[3])
             if len(got) > n:
                 return "`%s` returned %d records, more than requested" % (op, len(got))
             for k, s in got:
